@@ -157,9 +157,10 @@ impl<'a> IrEmitter<'a> {
 
     /// Escape Rust keywords by adding `r#` prefix.
     ///
-    /// Note: `self` and `Self` cannot be raw identifiers.
+    /// Note: `self`, `Self`, `crate` and `super` cannot be raw identifiers; they are only meaningful as path
+    /// segments and are emitted as they are.
     fn escape_keyword(name: &str) -> String {
-        if matches!(name, "self" | "Self") {
+        if matches!(name, "self" | "Self" | "crate" | "super") {
             return name.to_string();
         }
         // Strict + reserved keywords
